@@ -81,6 +81,8 @@ extern "C" void h_l2_rewind_roundtrip(void) {
     __CPROVER_assert(g_l1_calls == 1, "step: an operation step executes exactly one interpreter operation");
     __CPROVER_assert(l2_hist_aligned(env, s0.h_stack + 1), "inv: every history grows by exactly one entry on a successful operation step");
     __CPROVER_assert(env.curr_op_seq == s0.curr_op_seq + 1 && env.opcode_pos == s0.opcode_pos + 1, "step: position marker and opcode position advance by one");
+    __CPROVER_assert(l2_stack_eq(env.stack, g_l1_last_stack) && l2_stack_eq(env.altstack, g_l1_last_alt) && env.vfExec.size() == g_l1_last_cs_size && env.vfExec.all_true() == g_l1_last_cs_alltrue && env.nOpCount == g_l1_last_opcount && env.execdata.m_validation_weight_left == g_l1_last_weight,
+                     "step: the state shown after a debugger step is exactly the state the interpreter operation left (stacks, nesting, op count, budget)");
     bool r = RewindScript(env);
     __CPROVER_assert(r, "ensures: a rewind after a successful step is accepted");
     __CPROVER_assert(l2_stack_eq(env.stack, s0.stack), "ensures: rewind restores the main stack");
@@ -235,6 +237,13 @@ extern "C" void h_l2_eval(void) {
     __CPROVER_assert(l2_hist_aligned(env, s0.h_stack), "frame: exec leaves the rewind histories untouched");
     __CPROVER_assert(__CPROVER_same_object(env.pbegincodehash, env.script.begin()) && env.pbegincodehash == s0.cs, "inv: after exec the signed-code start still points into the debugged script (not into exec's temporary script)");
     __CPROVER_assert(!ok || g_l1_calls <= (int)local.n, "ensures: exec executes each operation of its list at most once");
+    if (g_l1_calls > 0) {
+        __CPROVER_assert(l2_stack_eq(env.stack, g_l1_last_stack) && l2_stack_eq(env.altstack, g_l1_last_alt) && env.vfExec.size() == g_l1_last_cs_size && env.vfExec.all_true() == g_l1_last_cs_alltrue,
+                         "ensures: the stacks and conditional state exec leaves are exactly those its last operation left");
+        __CPROVER_assert(env.nOpCount == g_l1_last_opcount && env.execdata.m_validation_weight_left == g_l1_last_weight, "ensures: operations run through exec count towards the operation limit and the signature budget like script operations");
+    } else {
+        __CPROVER_assert(l2_stack_eq(env.stack, s0.stack) && l2_stack_eq(env.altstack, s0.altstack) && env.nOpCount == s0.nOpCount, "ensures: an empty exec list changes nothing");
+    }
     __CPROVER_assert(!(ok && local.n > 0), "canary: successful exec of a non-empty list reachable");
     __CPROVER_assert(ok || local.n == 0, "canary: failing exec reachable");
 }
